@@ -321,6 +321,42 @@ Definition recover_triple (s : fs) : outcome (nat * nat) :=
   end.
 Definition pair_beq (a b : nat * nat) : bool := (fst a =? fst b) && (snd a =? snd b).
 
+(* ------------------------------------------------------------------ products under user-given names *)
+(* CorrData/RedshiftData/HistData.to_files(prefix), CorrFunc.to_file(path), Configuration.to_file(path):
+   the code DERIVES file names from the path the user gives (prefix -> prefix.with_suffix(".dat"), ...),
+   and it does so three times: when it removes files of an earlier product (nd), when it writes (ws, in
+   order; per file 1 + extra system calls that leave it incomplete and 1 + tail that leave it complete),
+   and when it reads the product back (nr).  The NAMES are parameters of the model (whatever the traces
+   show: dots in the prefix, suffixes that look like extensions, directories); the theorems say for
+   which relations between the three name lists every crash state is an error, the old or the new
+   product.  PDat/PSmp/PCov above are the instance nd = [PSmp; PCov], ws = PDat, PSmp, PCov, nr = [PDat; PSmp]. *)
+Definition wfile := (path * (nat * nat))%type.       (* name, (extra, tail) *)
+Definition ops_wfile (v : nat) (w : wfile) : list fop :=
+  repeat (Put (fst w) (ResF None)) (S (fst (snd w))) ++ repeat (Put (fst w) (ResF (Some v))) (S (snd (snd w))).
+Definition ops_wfiles (ws : list wfile) (v : nat) : list fop := flat_map (ops_wfile v) ws.
+(* unlink(missing_ok=True): only names that exist give an operation *)
+Definition ops_dels (s : fs) (nd : list path) : list fop := map Del (filter (fun p => present (s p)) nd).
+Definition ops_product (fixed : bool) (s : fs) (nd : list path) (ws : list wfile) (v : nat) : list fop :=
+  (if fixed then ops_dels s nd else []) ++ ops_wfiles ws v.
+(* reading: every name of nr must hold a complete file; the observable is the list of values read *)
+Fixpoint read_all (s : fs) (nr : list path) : option (list nat) :=
+  match nr with
+  | [] => Some []
+  | p :: r => match s p, read_all s r with
+              | Some (ResF (Some a)), Some l => Some (a :: l)
+              | _, _ => None
+              end
+  end.
+Definition recover_product (nr : list path) (s : fs) : outcome (list nat) :=
+  match read_all s nr with Some l => Ok l | None => Err end.
+Definition first_written (ws : list wfile) : option path :=
+  match ws with [] => None | w :: _ => Some (fst w) end.
+(* the relation between the three name lists under which the theorems hold: every name that is read is
+   written, and is removed beforehand unless it is the file written first *)
+Definition names_ok_b (nd : list path) (ws : list wfile) (nr : list path) : bool :=
+  forallb (fun p => mem_path p nd || match first_written ws with Some q => path_beq p q | None => false end) nr
+  && forallb (fun p => mem_path p (map fst ws)) nr.
+
 (* ------------------------------------------------------------------ workloads for the harness *)
 Inductive workload :=
 | WCreate (ps : list piece)
@@ -328,12 +364,13 @@ Inductive workload :=
 | WMeta (s0 : list (path * content))
 | WBuild (s0 : list (path * content)) (ies : list (nat * nat)) (b : nat) (force : bool)
 | WSingle (s0 : list (path * content)) (extra tail v : nat)
-| WTriple (s0 : list (path * content)) (v : nat).
+| WTriple (s0 : list (path * content)) (v : nat)
+| WProduct (s0 : list (path * content)) (nd : list path) (ws : list wfile) (nr : list path) (v : nat).
 
 Definition w_s0 (w : workload) : fs :=
   match w with
   | WCreate _ => empty_fs
-  | WOverwrite l _ _ | WMeta l | WBuild l _ _ _ | WSingle l _ _ _ | WTriple l _ => fs_of l
+  | WOverwrite l _ _ | WMeta l | WBuild l _ _ _ | WSingle l _ _ _ | WTriple l _ | WProduct l _ _ _ _ => fs_of l
   end.
 Definition ids_of (s : fs) : list nat := match s PIds with Some (IdsF ids) => ids | _ => [] end.
 
@@ -345,6 +382,7 @@ Definition w_ops (fixed : bool) (w : workload) : list fop :=
   | WBuild l ies b force => ops_build fixed (fs_of l) ies b force
   | WSingle _ extra tail v => ops_res_single extra tail v
   | WTriple l v => ops_triple fixed (fs_of l) v
+  | WProduct l nd ws _ v => ops_product fixed (fs_of l) nd ws v
   end.
 
 (* outcome class of the crash state after k operations; req = the later request (tree workloads) *)
@@ -361,6 +399,7 @@ Definition w_class (fixed : bool) (w : workload) (k req : nat) : nat :=
       classify nlist_eqb (measure sk ids req) (Ok (map (fun _ => req) ids)) (Ok (map (fun _ => req) ids))
   | WSingle _ _ _ _ => classify pair_beq (recover_single sk) (recover_single s0) (recover_single sf)
   | WTriple _ _ => classify pair_beq (recover_triple sk) (recover_triple s0) (recover_triple sf)
+  | WProduct _ _ _ nr _ => classify nlist_eqb (recover_product nr sk) (recover_product nr s0) (recover_product nr sf)
   end.
 
 (* (i) op-list conformance: the abstracted real trace equals the model's op list *)
@@ -391,4 +430,5 @@ Definition c08_hyp (w : workload) : nat :=
       code [wf_cat_b (fs_of l); forallb (consistent_b (fs_of l)) (ids_of (fs_of l));
             nlist_eqb (map fst ies) (ids_of (fs_of l))]
   | WSingle _ _ _ _ | WTriple _ _ => 0
+  | WProduct _ nd ws nr _ => code [names_ok_b nd ws nr]
   end.
